@@ -61,6 +61,13 @@ def reference(case):
         elif n == "signal":
             if cur == "R":
                 evs.append(f"signal({spawned - 1},{signum(op['sig'])})")
+                if signum(op["sig"]) == 9:
+                    # SIGKILL cannot be ignored: the process ends and is reaped by the task's wait branch
+                    for w in waiting:
+                        ended_at[w] = op["at"]
+                    waiting.clear()
+                    evs.append(f"reap({spawned - 1},9)")
+                    cur = "F:ExitSignal(ForceStop)"
         elif n == "run":
             evs.append(f"mark({op['mark']},{cur},{prev})")
         elif n == "set_hook":
